@@ -740,6 +740,64 @@ fn op_run(req: &J) -> J {
     json!({"outcomes": outcomes, "frames": frames, "stdout": out, "stderr": err, "ticks": env.ticks})
 }
 
+/// Run one of the source-to-source refactorings in process (the same
+/// functions the `reftest-*` subcommands call).
+fn op_refactor(req: &J) -> J {
+    let src = req["src"].as_str().unwrap_or("");
+    let path = PathBuf::from("/verif.gdn");
+    let offset = req["offset"].as_u64().unwrap_or(0) as usize;
+    let end_offset = req["end_offset"].as_u64().unwrap_or(offset as u64) as usize;
+    let name = req["name"].as_str().unwrap_or("");
+    let r = match req["kind"].as_str().unwrap_or("") {
+        "rename" => crate::rename::rename(src, &path, offset, name),
+        "extract-variable" => {
+            crate::extract_variable::extract_variable(src, &path, offset, end_offset, name)
+        }
+        "extract-function" => {
+            crate::extract_function::extract_function(src, &path, offset, end_offset, name)
+        }
+        "wrap-in-dbg" => crate::wrap_in_dbg::wrap_in_dbg(src, &path, offset, end_offset),
+        "add-type-annotation" => {
+            crate::add_type_annotation::add_type_annotation(src, &path, offset, end_offset)
+        }
+        other => return json!({"unsupported": other}),
+    };
+    match r {
+        Ok(s) => json!({"ok": s}),
+        Err(e) => json!({"err": e}),
+    }
+}
+
+/// What `garden check` reports: parse errors, else every diagnostic.
+fn op_check(req: &J) -> J {
+    let src = req["src"].as_str().unwrap_or("");
+    let path = PathBuf::from("/verif.gdn");
+    let mut id_gen = IdGenerator::default();
+    let (vfs, vfs_path) = Vfs::singleton(path.clone(), src.to_owned());
+    let (items, errors) = parse_toplevel_items(&vfs_path, src, &mut id_gen);
+    if !errors.is_empty() {
+        return json!({"parse_errors": errors.iter().map(err_json).collect::<Vec<_>>()});
+    }
+    let mut env = crate::env::Env::new(id_gen, vfs);
+    let ns = env.get_or_create_namespace(&path);
+    let (mut diagnostics, _) = crate::eval::load_toplevel_items(&items, &mut env, Rc::clone(&ns));
+    diagnostics.extend(crate::checks::check_toplevel_items_in_env(&vfs_path, &items, &env, ns));
+    let ds: Vec<J> = diagnostics
+        .iter()
+        .map(|d| {
+            json!({
+                "severity": match d.severity {
+                    crate::diagnostics::Severity::Error => "error",
+                    crate::diagnostics::Severity::Warning => "warning",
+                },
+                "message": d.message.as_string(),
+                "pos": pos_json(&d.position),
+            })
+        })
+        .collect();
+    json!({"diagnostics": ds})
+}
+
 fn dispatch(req: &J) -> J {
     match req["op"].as_str().unwrap_or("") {
         "lex" => op_lex(req),
@@ -750,6 +808,8 @@ fn dispatch(req: &J) -> J {
         "unify_all" => op_unify_all(req),
         "lsp_pos" => op_lsp_pos(req),
         "run" => op_run(req),
+        "refactor" => op_refactor(req),
+        "check" => op_check(req),
         other => json!({"unsupported": other}),
     }
 }
